@@ -303,6 +303,22 @@ Proof.
   intros H. cbn. rewrite andb_true_r. apply Nat.ltb_lt. lia.
 Qed.
 
+(* what OTHER observers do (subscribe, re-subscribe, unsubscribe, range reads, in any number and order)
+   cannot change what observer [id] receives: its stream depends only on the lines written *)
+Theorem followers_independent s id ops ops' :
+  NoDup (active s) ->
+  forallb (fun o => negb (touches id o)) ops = true ->
+  forallb (fun o => negb (touches id o)) ops' = true ->
+  written ops = written ops' ->
+  stream_of id (streams (run s ops)) = stream_of id (streams (run s ops')) /\
+  mem id (active (run s ops)) = mem id (active (run s ops')).
+Proof.
+  intros Hnd Hq Hq' Hw.
+  destruct (quiet_stream id ops Hq s Hnd) as [Ha Hs].
+  destruct (quiet_stream id ops' Hq' s Hnd) as [Ha' Hs'].
+  rewrite Ha, Ha', Hs, Hs', Hw. split; reflexivity.
+Qed.
+
 (* ---------- end to end: a range request on ANY reachable buffer is a window of the written history --- *)
 
 (* The answer to GetLogRange(off, lim) after any operation sequence is the contiguous block of
